@@ -7,7 +7,11 @@ package main
 // unregister.  Every call must still come back within its bound.
 
 import (
+	"encoding/base64"
 	"fmt"
+	"io"
+	"net/http"
+	"net/http/httptest"
 	"sort"
 	"strconv"
 	"strings"
@@ -15,6 +19,7 @@ import (
 	"time"
 
 	frugal "github.com/Workiva/frugal/lib/go"
+	"github.com/apache/thrift/lib/go/thrift"
 	"github.com/nats-io/nats.go"
 
 	"verif/rig"
@@ -306,5 +311,101 @@ func attemptAdapterLateHandoff(c c13case, body []byte) *attempt {
 		a.First = first
 	}
 	tr.Close()
+	return a
+}
+
+// ---------------------------------------------------------------- HTTP, a short call next to a long one
+
+// attemptHTTPWithLongCall: two calls in flight on ONE HTTP transport against
+// a silent server: the case's call (timeout T) and a companion with timeout
+// 2T+1s.  The request-header callback of the builder is the ordering point:
+// the short call waits in it until the long call has reached its own callback
+// (i.e. has passed everything a call does before building its headers).
+// The short call must time out by its own timeout.
+func attemptHTTPWithLongCall(c c13case, body []byte) *attempt {
+	flags := &peerFlags{}
+	release := make(chan struct{})
+	var once sync.Once
+	open := func() { once.Do(func() { close(release) }) }
+	srv := httptest.NewServer(http.HandlerFunc(func(w http.ResponseWriter, r *http.Request) {
+		raw, _ := io.ReadAll(r.Body)
+		frame, _ := base64.StdEncoding.DecodeString(string(raw))
+		h, b, err := wire.ParseFrame(frame)
+		if err != nil {
+			http.Error(w, "bad frame", http.StatusBadRequest)
+			return
+		}
+		flags.markSaw()
+		<-release // silent until the attempt is over
+		io.WriteString(w, base64.StdEncoding.EncodeToString(respFrame(h["_opid"], b)))
+	}))
+	long := c
+	long.TimeoutNS = int64(2*c.T() + time.Second)
+	fctx, payload, want := newCtx(c, body)
+	fctxL, payloadL, _ := newCtx(long, body)
+	opS, opL := fctx.RequestHeaders()["_opid"], fctxL.RequestHeaders()["_opid"]
+	shortIn, longIn := make(chan struct{}), make(chan struct{})
+	var onceS, onceL sync.Once
+	cb := func(fc frugal.FContext) map[string]string {
+		op, _ := fc.RequestHeader("_opid")
+		switch op {
+		case opS:
+			onceS.Do(func() { close(shortIn) })
+			select {
+			case <-longIn:
+			case <-time.After(100 * time.Millisecond): // harness-induced delay, kept well below the 300 ms allowance
+			}
+		case opL:
+			onceL.Do(func() { close(longIn) })
+		}
+		return nil
+	}
+	ht := &http.Transport{}
+	tr := frugal.NewFHTTPTransportBuilder(&http.Client{Transport: ht}, srv.URL).WithRequestHeadersFromFContext(cb).Build()
+	tr.Open()
+	stop := make(chan struct{})
+	longDone := make(chan *attempt, 1)
+	go func() {
+		l := &attempt{}
+		select {
+		case <-shortIn:
+		case <-stop:
+			longDone <- l
+			return
+		}
+		start := time.Now()
+		var res thrift.TTransport
+		var err error
+		if c.Op == "request" {
+			res, err = tr.Request(fctxL, payloadL)
+		} else {
+			err = tr.Oneway(fctxL, payloadL)
+		}
+		l.Returned = true
+		l.ElapsedNS = int64(time.Since(start))
+		l.Elapsed = time.Duration(l.ElapsedNS).Round(time.Microsecond).String()
+		l.ErrClass, l.ErrText, l.TimedOut, l.Success = classify(res, err)
+		longDone <- l
+	}()
+	a := invoke(callSpec{c: c, tr: tr, fctx: fctx, payload: payload, want: want, flags: flags, release: open})
+	a.RequestHex = fmt.Sprintf("%x", payload)
+	select {
+	case <-longIn:
+		a.ReaderHeld = "" // unused here
+		a.Companion = fmt.Sprintf("companion call (timeout %s) had reached its header callback", long.T())
+	default:
+		a.Companion = "companion call had NOT started when the short call returned"
+	}
+	close(stop)
+	open() // the server now answers: the companion comes back
+	select {
+	case l := <-longDone:
+		a.First = l
+	case <-time.After(long.T() + c13Watchdog):
+		a.Companion += "; companion call never returned"
+	}
+	ht.CloseIdleConnections()
+	srv.CloseClientConnections()
+	srv.Close()
 	return a
 }
